@@ -147,7 +147,7 @@ func runC16(ctx *core.Ctx) {
 	ctx.Exhaustive(true)
 	pols := c16Policies()
 	maxW := ctx.N(64, 400)
-	nPairs := ctx.N(3000, 60000)
+	nPairs := ctx.N(6000, 100000)
 	ctx.Run("pairs", nPairs, func(cs *core.Case) {
 		var env *Env
 		if cs.Index%4 == 3 {
